@@ -1913,7 +1913,7 @@ func c14Real(c *ctx, e *c14env, cells []int, seeds []uint64) {
 
 func runC14(c *ctx) {
 	res := c.res
-	res.Rule = "sys: generated configurations (hosts incl. option-like/odd bytes, ports incl. out of range, users, passwords with/without marker bytes, socket timeouts incl. sub-second/negative, strict on/off, known-hosts/config/key files incl. odd paths and unusable keys, passphrase, 0-3 extra-arg options, argv override, NETCONF, shuffled option order) through generic/netconf NewDriver + Transport.Open with the stand-in ssh; std/real: {strict,not} x 9 known-hosts file kinds x {password,key,both,none,bad key} x server acceptance x users against an in-process SSH server with a fresh host key; hist: 2-3 successive connections in one process (fresh driver each) through the SAME known-hosts path whose content is rewritten in between (match->mismatch, match->empty, match->revoked, mismatch->match, missing->match, ...), judged per connection on the content at that time. non-trivial = sys case with a user/known-hosts/key/extra args, every std/real case; distinct by case seed"
+	res.Rule = "sys: generated configurations (hosts incl. option-like/odd bytes, ports incl. out of range, users, passwords with/without marker bytes, socket timeouts incl. sub-second/negative, strict on/off, known-hosts/config/key files incl. odd paths and unusable keys, passphrase, 0-3 extra-arg options, argv override, NETCONF, shuffled option order) through generic/netconf NewDriver + Transport.Open with the stand-in ssh; std/real: {strict,not} x 9 known-hosts file kinds x {password,key,both,none,bad key} x server acceptance x users x host forms (127.0.0.1, localhost, ::1) x how the known-hosts file is named (path, path that does not exist, the ...FileSystem() variant with ~/.ssh/known_hosts under a private $HOME) x extra ciphers/kexs x option order x bare transport or Driver.Open+GetPrompt (real: also WithAuthBypass with key auth, and an ssh config file that tries to override port/user/strict checking) against an in-process SSH server with a fresh host key; known-hosts kinds also cover wildcard patterns, a second key type for the host, only another key type; keys also passphrase-protected; sys additionally: file options by path / missing path / system variant, OpenBin that does not exist, GetHost/GetPort/InChannelAuthData/IsAlive; hist: 2-3 successive connections in one process (fresh driver each) through the SAME known-hosts path whose content is rewritten in between (match->mismatch, match->empty, match->revoked, mismatch->match, missing->match, ...), judged per connection on the content at that time. non-trivial = sys case with a user/known-hosts/key/extra args, every std/real case; distinct by case seed"
 	for _, v := range []string{"SSH_AUTH_SOCK", "SSH_ASKPASS", "DISPLAY", "VERIF_C14_ARGV"} {
 		os.Unsetenv(v)
 	}
@@ -1988,7 +1988,7 @@ func runC14(c *ctx) {
 			cells = append(cells, cell)
 		}
 	}
-	for i := c.n(6, 60); i > 0; i-- {
+	for i := c.n(20, 120); i > 0; i-- {
 		cells = append(cells, -1)
 	}
 	c14Real(c, e, cells, seeds(len(cells)))
